@@ -43,6 +43,7 @@ pub enum Sym {
     WaAlmostHalfGap,
     WaMinus,
     WaBeforeVideo,
+    WaJustBeforeVideo,
     WaBadSync,
     WaBadLen,
     WaHeaderOnly,
@@ -53,6 +54,8 @@ pub enum Sym {
     EvDelta,
     EvEmpty,
     EaOk,
+    EaOdd,
+    EaBad,
     Fin,
     FinStats,
     FinConsume,
@@ -91,6 +94,7 @@ pub const FULL: &[Sym] = &[
     Sym::WvdHuge,
     Sym::WaMinus,
     Sym::WaBeforeVideo,
+    Sym::WaJustBeforeVideo,
     Sym::WaBadSync,
     Sym::WaBadLen,
     Sym::WaHeaderOnly,
@@ -101,6 +105,8 @@ pub const FULL: &[Sym] = &[
     Sym::EvDelta,
     Sym::EvEmpty,
     Sym::EaOk,
+    Sym::EaOdd,
+    Sym::EaBad,
 ];
 
 /// one symbol per guard: the sub-alphabet used for the deeper runs
@@ -122,6 +128,10 @@ pub const CORE: &[Sym] = &[
     Sym::WaAlmostHalfGap,
     Sym::EvKey,
 ];
+
+/// the automatic-timestamp entry points only, explored deeper: their clocks are state that
+/// only they read
+pub const CONV: &[Sym] = &[Sym::EvKey, Sym::EvDelta, Sym::EvEmpty, Sym::EaOk, Sym::EaOdd, Sym::EaBad];
 
 pub struct Fixtures {
     key_cfg: Vec<Bytes>,
@@ -318,6 +328,8 @@ pub fn concretize(sym: Sym, step: usize, m: &Contract, fx: &Fixtures) -> Op {
         Sym::WaAlmostHalfGap => wa(a_base + (2147483648.0 - 900.0) / 90000.0, &fx.audio_ok[i]),
         Sym::WaMinus => wa((a_base - 0.01).max(0.0), &fx.audio_ok[i]),
         Sym::WaBeforeVideo => wa(first.map(|f| (f - 0.5).max(0.0)).unwrap_or(0.25), &fx.audio_ok[i]),
+        // a microsecond before the first video frame: earlier in seconds, the same 90 kHz tick
+        Sym::WaJustBeforeVideo => wa(first.map(|f| (f - 1e-6).max(0.0)).unwrap_or(0.25), &fx.audio_ok[i]),
         Sym::WaBadSync => wa(a_base + 0.5, &fx.bad_sync),
         Sym::WaBadLen => wa(a_base + 0.5, &fx.bad_len),
         Sym::WaHeaderOnly => wa(a_base + 0.5, &fx.header_only),
@@ -328,6 +340,10 @@ pub fn concretize(sym: Sym, step: usize, m: &Contract, fx: &Fixtures) -> Op {
         Sym::EvDelta => Op::EV { data: fx.delta[i].clone(), dur_ms: 40 },
         Sym::EvEmpty => Op::EV { data: fx.empty.clone(), dur_ms: 33 },
         Sym::EaOk => Op::EA { data: fx.audio_ok[i].clone(), samples: 1024 },
+        // 100 samples at 48 kHz = 187.5 ticks: every other frame lands on a half tick, where the
+        // smallest error of the automatic clock is visible
+        Sym::EaOdd => Op::EA { data: fx.audio_ok[i].clone(), samples: 100 },
+        Sym::EaBad => Op::EA { data: fx.bad_sync.clone(), samples: 1024 },
         Sym::Fin => Op::FinishInPlace,
         Sym::FinStats => Op::FinishInPlaceStats,
         Sym::FinConsume => Op::Finish,
@@ -699,8 +715,8 @@ pub fn collect(ctx: &Ctx, which: Which) -> (Tally, Meta) {
     let runs: Vec<(&'static [Sym], usize)> = match (which, ctx.thorough) {
         (Which::C06, false) => vec![(C06_ALPHA, 4)],
         (Which::C06, true) => vec![(C06_ALPHA, 6)],
-        (_, false) => vec![(FULL, 3), (CORE, 4)],
-        (_, true) => vec![(FULL, 4), (CORE, 6)],
+        (_, false) => vec![(FULL, 3), (CORE, 4), (CONV, 5)],
+        (_, true) => vec![(FULL, 4), (CORE, 6), (CONV, 7)],
     };
     let cfgs = contract_configs(ctx.thorough);
     let mut items = vec![];
